@@ -33,7 +33,7 @@ def check_hw(ctx, case):
     data, axis, k = case['data'], case['axis'], case['nb_words']
     d0 = data.copy()
     model = scared.HammingWeight(nb_words=k, expected_dtype=data.dtype)
-    out = must(case, 'HammingWeight(nb_words=%d)(data %s %s, axis=%s)' % (k, data.dtype, data.shape, axis), model, data, **({} if axis is None else {'axis': axis}))
+    out = must(case, 'HammingWeight(nb_words=%d)(data %s %s, axis=%s)' % (k, data.dtype, data.shape, axis), model, gen.L(case, data), **({} if axis is None else {'axis': axis}))
     ax = data.ndim - 1 if axis is None or axis == -1 else axis
     hw = _hw_ref(data)
     if k > 1:
@@ -53,11 +53,11 @@ def check_mono(ctx, case):
     data, b = case['data'], case['bit']
     d0 = data.copy()
     if case['model'] == 'value':
-        out = must(case, 'Value()', scared.Value(), data, **({} if case['axis'] is None else {'axis': case['axis']}))
+        out = must(case, 'Value()', scared.Value(), gen.L(case, data), **({} if case['axis'] is None else {'axis': case['axis']}))
         if out.shape != data.shape or not np.array_equal(out, data, equal_nan=data.dtype.kind == 'f'):
             raise Violation('Value() does not return the data unchanged', case)
     else:
-        out = must(case, 'Monobit(%d) on %s' % (b, data.dtype), scared.Monobit(b), data, **({} if case['axis'] is None else {'axis': case['axis']}))
+        out = must(case, 'Monobit(%d) on %s' % (b, data.dtype), scared.Monobit(b), gen.L(case, data), **({} if case['axis'] is None else {'axis': case['axis']}))
         exp = np.vectorize(lambda v: (int(v) >> b) & 1, otypes=['int64'])(data) if data.size else np.zeros(data.shape, dtype='int64')
         if np.shape(out) != exp.shape or not np.array_equal(np.asarray(out).astype('int64'), exp):
             raise Violation('Monobit(%d) on %s%s is not bit %d of every value' % (b, data.dtype, data.shape, b), case)
@@ -75,7 +75,7 @@ def check_disc(ctx, case):
     import warnings
     with warnings.catch_warnings():
         warnings.simplefilter('ignore')
-        out = must(case, '%s(axis=%s) on %s' % (name, axis, data.shape), DISC[name], data, **({} if axis is None else {'axis': axis}))
+        out = must(case, '%s(axis=%s) on %s' % (name, axis, data.shape), DISC[name], gen.L(case, data), **({} if axis is None else {'axis': axis}))
     ax = data.ndim - 1 if axis is None or axis == -1 else axis
     moved = np.moveaxis(data, ax, -1)
     exp_shape = moved.shape[:-1]
